@@ -7,7 +7,7 @@ import timeouts as T
 PROP = 'C06'
 VARIANTS = ['apply', 'map', 'imap', 'fork']
 REPLAYERS = {'pool.TimeoutHandler.handle_timeouts': 'replayers/timeout_scan.py',
-             'pool.Pool.apply_async': 'replayers/apply_limits.py',
+             'pool.Pool.apply_async': 'replayers/apply_limits.py', 'pool.ApplyResult._ack': 'replayers/ack_owner.py',
              'pool.Worker.after_fork': 'replayers/after_fork.py', 'pool.soft_timeout_sighandler': 'replayers/after_fork.py'}
 
 ASSUMPTIONS = [
@@ -34,6 +34,10 @@ def build(w, variant='apply'):
     if variant == 'apply':
         for c in H.apply_handle_contracts(PROP):
             w.contracts.setdefault(c.qualname, c)
+            if c.qualname.endswith('ApplyResult._ack'):
+                # "no soft-timeout signal on behalf of a job whose result has already been processed": a job whose result
+                # overtook its ACK must leave the cache when the ACK is handled, or the scan still sees it (removed_iff_ready)
+                items.append(c)
         items += [T.soft_contract(PROP), ps.apply_async_contract(PROP)]
     return items
 
